@@ -169,13 +169,18 @@ Lemma show_labels_snoc_len ls k :
 Proof.
   revert k. induction ls as [|l ls IH]; intros k Hk; [cbn in Hk; lia|].
   destruct k as [|k].
-  - cbn [firstn nth]. rewrite show_labels_cons_len, show_labels_nil_len. lia.
+  - change (firstn 1 (l :: ls)) with [l]. change (firstn 0 (l :: ls)) with (@nil label).
+    change (nth 0 (l :: ls) []) with l.
+    rewrite show_labels_cons_len, show_labels_nil_len. lia.
   - cbn [length] in Hk. specialize (IH k ltac:(lia)).
     change (firstn (S (S k)) (l :: ls)) with (l :: firstn (S k) ls).
     change (firstn (S k) (l :: ls)) with (l :: firstn k ls).
     change (nth (S k) (l :: ls) []) with (nth k ls []).
     rewrite !show_labels_cons_len. lia.
 Qed.
+
+Lemma firstn_S_cons {A} k (l : A) ls : firstn (S k) (l :: ls) = l :: firstn k ls.
+Proof. reflexivity. Qed.
 
 Lemma dots_spec ls off i :
   In i (dots ls off) <->
@@ -186,12 +191,15 @@ Proof.
   - cbn. split; [intros []|intros [k [Hk _]]; lia].
   - cbn [dots In]. rewrite IH. split.
     + intros [<-|[k [Hk He]]].
-      * exists O. split; [cbn; lia|]. cbn [firstn]. rewrite show_labels_cons_len, show_labels_nil_len. lia.
-      * exists (S k). split; [cbn; lia|]. cbn [firstn]. rewrite show_labels_cons_len. lia.
+      * exists O. split; [cbn [length]; lia|].
+        rewrite firstn_S_cons, show_labels_cons_len. cbn [firstn]. rewrite show_labels_nil_len. lia.
+      * exists (S k). split; [cbn [length]; lia|].
+        rewrite firstn_S_cons, show_labels_cons_len. lia.
     + intros [[|k] [Hk He]].
-      * left. cbn [firstn] in He. rewrite show_labels_cons_len, show_labels_nil_len in He. lia.
-      * right. exists k. split; [cbn in Hk; lia|]. cbn [firstn] in He.
-        rewrite show_labels_cons_len in He. lia.
+      * left. rewrite firstn_S_cons, show_labels_cons_len in He. cbn [firstn] in He.
+        rewrite show_labels_nil_len in He. lia.
+      * right. exists k. split; [cbn [length] in Hk; lia|].
+        rewrite firstn_S_cons, show_labels_cons_len in He. lia.
 Qed.
 
 Lemma show_labels_firstn_len_lt ls k :
@@ -200,7 +208,7 @@ Proof.
   revert k. induction ls as [|l ls IH]; intros k Hk; [cbn in Hk; lia|].
   destruct k as [|k].
   - cbn [firstn]. rewrite show_labels_cons_len, show_labels_nil_len. lia.
-  - cbn [firstn]. rewrite !show_labels_cons_len.
+  - rewrite firstn_S_cons, !show_labels_cons_len.
     cbn [length] in Hk. specialize (IH k ltac:(lia)). lia.
 Qed.
 
@@ -252,4 +260,61 @@ Proof.
     repeat constructor; cbn; lia.
   - intro H. apply (label_start_wire [[97; 46; 98]; [99]] 3) in H; [|discriminate|repeat constructor; cbn; lia].
     destruct H as [[|[|k]] [Hk He]]; cbn in *; try discriminate; lia.
+Qed.
+
+(* ---- the same after CanonicalName (which is what match walks over) ---- *)
+
+Lemma sep_at_lower s i : sep_at (lower_bytes s) i <-> sep_at s i.
+Proof.
+  unfold sep_at, lower_bytes.
+  rewrite nth_error_map, firstn_map, <- map_rev.
+  change (map lower (rev (firstn i s))) with (lower_bytes (rev (firstn i s))).
+  rewrite bs_run_lower.
+  destruct (nth_error s i) as [b|]; cbn; [|split; intros [H _]; discriminate].
+  split; intros [Hb He]; split; try exact He.
+  - injection Hb as Hb. apply (proj1 (lower_46 b)) in Hb. subst b. reflexivity.
+  - injection Hb as ->. reflexivity.
+Qed.
+
+Lemma label_start_lower s p : label_start (lower_bytes s) p <-> label_start s p.
+Proof.
+  unfold label_start. assert (Hl : length (lower_bytes s) = length s) by apply map_length.
+  split; (intros [->|[i [-> [Hs Hlt]]]]; [left; reflexivity|right; exists i]).
+  - rewrite Hl in Hlt. apply (proj1 (sep_at_lower s i)) in Hs. auto.
+  - rewrite Hl. split; [reflexivity|]. split; [apply (proj2 (sep_at_lower s i)); exact Hs|exact Hlt].
+Qed.
+
+Lemma par_spec : forall (s pre : bytes),
+  par s (Nat.even (bs_run (rev pre))) = Nat.even (bs_run (rev (pre ++ s))).
+Proof.
+  induction s as [|c r IH]; intro pre; [rewrite app_nil_r; reflexivity|].
+  cbn [par]. rewrite <- bs_run_snoc, IH, <- app_assoc. reflexivity.
+Qed.
+
+Lemma show_labels_app a b : show_labels (a ++ b) = show_labels a ++ show_labels b.
+Proof. unfold show_labels. apply flat_map_app. Qed.
+
+Lemma is_fqdn_show_name ls : ls <> [] -> Forall wfb ls -> is_fqdn (show_name ls) = true.
+Proof.
+  intros Hne Hw. destruct ls as [|l0 ls0]; [congruence|]. set (ls := l0 :: ls0) in *.
+  change (show_name ls) with (show_labels ls).
+  destruct (exists_last Hne) as [init [lst Hsplit]]. fold ls in Hsplit. rewrite Hsplit in *.
+  apply Forall_app in Hw. destruct Hw as [Hwi Hwl]. inversion Hwl as [|? ? Hwlst _]; subst.
+  rewrite show_labels_app. unfold show_labels at 2. cbn [flat_map]. rewrite app_nil_r, app_assoc.
+  unfold is_fqdn. rewrite rev_app_distr. cbn [rev app].
+  pose proof (par_spec (show_labels init ++ show_label lst) []) as Hp. cbn [rev bs_run app] in Hp.
+  rewrite <- Hp. change (Nat.even 0) with true. rewrite par_app.
+  destruct (show_labels_scan init 0 Hwi) as [_ ->].
+  destruct (show_label_scan lst 0 Hwlst) as [_ ->]. reflexivity.
+Qed.
+
+(* The offsets ServeMux.match visits (the label starts of the canonical name)
+   are exactly the offsets at which the wire labels of the question name begin. *)
+Lemma label_start_canonical_wire (ls : list label) (p : nat) :
+  ls <> [] -> Forall wfb ls ->
+  (label_start (canonical_name (show_name ls)) p <->
+   exists k, (k < length ls)%nat /\ p = length (show_labels (firstn k ls))).
+Proof.
+  intros Hne Hw. unfold canonical_name, fqdn. rewrite (is_fqdn_show_name ls Hne Hw).
+  rewrite label_start_lower. apply label_start_wire; assumption.
 Qed.
